@@ -301,6 +301,71 @@ def main():
                     cfg.meshes[1]["transforms"].append(t)
                 compare(simu, cfg, dict(sim=kind, elemType=et), mod)
 
+    # ---------------- going back to an earlier mesh through Set_Iter, then moving that mesh ----------------
+    for kind in ("elastic", "thermal"):
+        for et in (["TRI3", "QUAD4"] if args.tier == "quick" else ["TRI3", "QUAD4", "TRI6"]):
+            for tmove in (("rotate", 30.0, 0.5, 0.25), ("coord", 2.0, 0.25, 0.0, 1.5), ("translate", 1.5, -0.5), ("symmetry", 0.25, 0.0, 0.6, 0.8)):
+                cfg = Cfg(kind, et)
+                mesh = gen_mesh(et, 1.0)
+                model = make_model(cfg)
+                simu = make_sim(cfg, mesh, model)
+                simu.rho = cfg.rho
+                ident = dict(sim=kind, elemType=et, scenario=f"read, Save_Iter, simu.mesh = finer mesh, read, Save_Iter, Set_Iter(0), read, mesh0.{tmove[0]}, read")
+                try:
+                    simu.Get_K_C_M_F()
+                    simu.Save_Iter()
+                    newm = gen_mesh(et, 0.5)
+                    simu.mesh = newm
+                    simu.Get_K_C_M_F()
+                    simu.Save_Iter()
+                    simu.Set_Iter(0)
+                    simu.Get_K_C_M_F()
+                    apply_transform(mesh, tmove)
+                    cfg.meshes[0]["transforms"].append(tmove)
+                    res.case(("back-to-old-mesh", kind, et, tmove[0]))
+                    if simu.mesh is not mesh:
+                        res.notes.append("Set_Iter(0) did not put the first mesh back; scenario not applicable")
+                        continue
+                    Ks = [A.toarray() for A in simu.Get_K_C_M_F()]
+                    fs, _ = fresh(cfg)
+                    Kf = [A.toarray() for A in fs.Get_K_C_M_F()]
+                    bad = [n for n, a, b in zip("KCMF", Ks, Kf) if a.shape != b.shape or np.abs(a - b).max() > 1e-9 * (1e-300 + np.abs(b).max())]
+                    if bad:
+                        res.fail(f"stale after moving a mesh restored by Set_Iter sim={kind}", f"{bad} differ from those of a simulation built on the moved mesh (needUpdate = {bool(simu.needUpdate)})", ident)
+                except Exception as ex:  # noqa: BLE001
+                    res.fail(f"back-to-old-mesh scenario raises sim={kind}", f"{type(ex).__name__}: {str(ex)[:150]}", ident)
+
+    # ---------------- phase-field: a change of the elastic law invalidates BOTH staggered systems (psi+ enters the damage system) ----------------
+    try:
+        meshq = gen_mesh("TRI3", 0.5)
+        leftq = meshq.Nodes_Conditions(lambda x, y, z: x == 0)
+        rightq = meshq.Nodes_Conditions(lambda x, y, z: x == 2.0)
+        for pname, pval in (("E", 150.0), ("v", 0.2), ("planeStress", False)):
+            matq = Models.Elastic.Isotropic(2, E=210.0, v=0.3, planeStress=True, thickness=1.0)
+            sq = Simulations.PhaseField(meshq, Models.PhaseField(matq, "Amor", "AT2", 0.5, 0.2))
+            sq.add_dirichlet(leftq, [0, 0], ["x", "y"])
+            sq.add_dirichlet(rightq, [0.04], ["x"])
+            sq.Solve()
+            sq.Get_K_C_M_F("damage")
+            sq.Get_K_C_M_F("elastic")
+            uq, dq = np.asarray(sq.displacement).copy(), np.asarray(sq.damage).copy()
+            setattr(matq, pname, pval)
+            got = {pt: [A.toarray() for A in sq.Get_K_C_M_F(pt)] for pt in ("damage", "elastic")}
+            kw = dict(E=210.0, v=0.3, planeStress=True)
+            kw[pname] = pval
+            sf2 = Simulations.PhaseField(meshq, Models.PhaseField(Models.Elastic.Isotropic(2, thickness=1.0, **kw), "Amor", "AT2", 0.5, 0.2))
+            sf2._Set_solutions("elastic", uq.copy())
+            sf2._Set_solutions("damage", dq.copy())
+            res.case(("phasefield", "elastic-law", pname))
+            for pt in ("damage", "elastic"):
+                want = [A.toarray() for A in sf2.Get_K_C_M_F(pt)]
+                bad = [n for n, a, b in zip("KCMF", got[pt], want) if a.shape != b.shape or np.abs(a - b).max() > 1e-9 * (1e-300 + np.abs(b).max())]
+                if bad:
+                    res.fail(f"stale phase-field {pt} system after a change of the elastic law", f"after material.{pname} = {pval} on a loaded state, {bad} of the {pt} problem differ from a fresh simulation in the same state",
+                             dict(sim="PhaseField", parameter=pname, value=pval, max_damage=float(dq.max())))
+    except Exception as ex:  # noqa: BLE001
+        res.notes.append(f"phase-field elastic-law scenario skipped: {type(ex).__name__}: {str(ex)[:150]}")
+
     # ---------------- phase-field: restoring an iteration invalidates both staggered systems ----------------
     try:
         meshp = gen_mesh("TRI3", 0.5)
